@@ -360,3 +360,8 @@ Proof.
   unfold after_flags. rewrite Hr. cbn [negb andb]. unfold with_flags, io_in. rewrite Hin. cbn [andb].
   eexists. reflexivity.
 Qed.
+
+(* a system call that fails -- poll interrupted by a signal handler of the caller (EINTR) included -- ends the read
+   with that error at once: it is never turned into a timeout and never answered by waiting again *)
+Theorem syscall_error_ends_read : forall s e, step s (RErr e) = ret s (Some (EOs e)).
+Proof. intros s e. unfold step. destruct (pc s); reflexivity. Qed.
